@@ -18,6 +18,9 @@
 //! ROUND 3 (run_minimal, same clauses + "is accepted"): sample sets with EXACTLY as many points as parameters - 3D: 6 points in
 //! the 3-2-1 locating scheme on three mutually orthogonal faces of the box (3 arrangements) and a 7-point control; 2D: 3 points
 //! 2-1 on two perpendicular edges (2 arrangements per outline) and a 4-point control; 3 displacements x 2 guesses (x both modes).
+//! ROUND 4 (run_open_and_far, same clauses): OPEN reference meshes whose free boundary edges fix a degree of freedom - an L
+//! bracket of two plates (ToPoint; slides along the fold line) and a corner of three plates (both modes) with sample grids
+//! reaching the free edges; starting guesses carrying a VERY large translation (3.6e5 .. 1.1e6 units), 3D and 2D.
 use super::Report;
 use crate::common::DistMode;
 use crate::geom2::align2::points_to_curve;
@@ -561,12 +564,76 @@ fn run_minimal(r: &mut Report) {
     }
 }
 
+// ---------------------------------------------------------------------------------------------- round 4: open references, very far guesses
+/// (a) OPEN reference meshes whose free boundary edges fix a degree of freedom (ToPoint only sees it): an L bracket of two
+/// plates (the slide along the fold line is fixed by the plate boundaries alone) and a corner of three plates; sample grids
+/// reaching the free edges, displaced by slides along the fold / in the plane of a plate (points slip over a free edge and
+/// then lie exactly in the plane of their closest triangle, at a non-zero distance from it) and by small general motions.
+/// (b) starting guesses that carry a VERY large translation (the measurement taken 1e5 .. 1e6 units from the nominal part).
+fn run_open_and_far(r: &mut Report) {
+    let p3 = |x: f64, y: f64, z: f64| Point3::new(x, y, z);
+    let bracket = Mesh::new(vec![p3(0.0, 0.0, 0.0), p3(10.0, 0.0, 0.0), p3(10.0, 6.0, 0.0), p3(0.0, 6.0, 0.0), p3(0.0, 0.0, 4.0), p3(0.0, 6.0, 4.0)], vec![[0, 1, 2], [0, 2, 3], [0, 3, 5], [0, 5, 4]], false);
+    let mut bs = vec![];
+    for j in 0..=12 { let y = j as f64 * 0.5; for i in 1..=10 { bs.push(p3(i as f64, y, 0.0)); } for k in 1..=4 { bs.push(p3(0.0, y, k as f64)); } }
+    let corner = Mesh::new(vec![p3(0.0, 0.0, 0.0), p3(8.0, 0.0, 0.0), p3(8.0, 6.0, 0.0), p3(0.0, 6.0, 0.0), p3(0.0, 0.0, 4.0), p3(0.0, 6.0, 4.0), p3(8.0, 0.0, 4.0)],
+        vec![[0, 1, 2], [0, 2, 3], [0, 3, 5], [0, 5, 4], [0, 4, 6], [0, 6, 1]], false);
+    let mut cs = vec![];
+    for i in 1..=8 { for j in 1..=6 { cs.push(p3(i as f64, j as f64, 0.0)); } }
+    for j in 1..=6 { for k in 1..=4 { cs.push(p3(0.0, j as f64, k as f64)); } }
+    for i in 1..=8 { for k in 1..=4 { cs.push(p3(i as f64, 0.0, k as f64)); } }
+    let slides: Vec<(&str, Iso3)> = vec![
+        ("slide (0,0.4,0) along the fold line", iso3((0.0, 0.4, 0.0), (0.0, 0.0, 0.0))),
+        ("slide (0,-0.25,0) along the fold line", iso3((0.0, -0.25, 0.0), (0.0, 0.0, 0.0))),
+        ("(0.05,0.3,-0.04) + euler (0.01,-0.02,0.015)", iso3((0.05, 0.3, -0.04), (0.01, -0.02, 0.015))),
+        ("(0.03,-0.02,0.04) + euler (-0.01,0.01,0.02)", iso3((0.03, -0.02, 0.04), (-0.01, 0.01, 0.02))),
+    ];
+    for (mname, mesh, base, modes) in [("open L bracket: plates 10x6 in z=0 and 4x6 in x=0 sharing the fold x=z=0", &bracket, &bs, vec![true]), ("open corner of three plates 8x6 (z=0), 4x6 (x=0), 8x4 (y=0)", &corner, &cs, vec![false, true])] {
+        let t = box_tris(mesh);
+        for (dn, disp) in slides.iter() { for to_point in modes.iter() {
+            let pts: Vec<Point3> = base.iter().map(|p| disp * p).collect();
+            let d = || format!("3D {}, {} samples on a unit / half-unit grid reaching the free edges, displacement {}, guess identity, mode {}", mname, base.len(), dn, if *to_point { "ToPoint" } else { "ToPlane" });
+            eval3(r, &t, mesh, &pts, disp, &Iso3::identity(), *to_point, true, &d);
+        } }
+    }
+    // (b) very far guesses
+    let boxm = Mesh::create_box(4.0, 3.0, 2.0, false);
+    let t = box_tris(&boxm);
+    let (clean, _) = box_samples();
+    for (fnm, far) in [("(4e5,-3e5,2e5) + axis-angle (0.3,-0.2,0.4)", Iso3::new(Vector3::new(4.0e5, -3.0e5, 2.0e5), Vector3::new(0.3, -0.2, 0.4))), ("(-1e6,0,5e5) + axis-angle (-1.0,0.5,2.0)", Iso3::new(Vector3::new(-1.0e6, 0.0, 5.0e5), Vector3::new(-1.0, 0.5, 2.0)))] {
+        for (on, off) in [("(0.2,-0.1,0.15) + axis-angle (0.03,0.02,-0.03)", Iso3::new(Vector3::new(0.2, -0.1, 0.15), Vector3::new(0.03, 0.02, -0.03))), ("(-0.1,0.15,0.05) + axis-angle (-0.02,0.04,0.1)", Iso3::new(Vector3::new(-0.1, 0.15, 0.05), Vector3::new(-0.02, 0.04, 0.1)))] {
+            let pts: Vec<Point3> = clean.iter().map(|p| far * p).collect();
+            let guess = off * far.inverse();
+            for to_point in [false, true] {
+                let d = || format!("3D box 4x3x2, sample set A: on the faces, VERY far displacement {}, starting guess = ({}) * displacement^-1, mode {}", fnm, on, if to_point { "ToPoint" } else { "ToPlane" });
+                eval3(r, &t, &boxm, &pts, &far, &guess, to_point, true, &d);
+            }
+        }
+    }
+    let p2 = |x: f64, y: f64| Point2::new(x, y);
+    let deg = std::f64::consts::PI / 180.0;
+    for (sn, verts) in [("closed L outline (0,0),(6,0),(6,2),(3,2),(3,4),(0,4)", vec![p2(0.0, 0.0), p2(6.0, 0.0), p2(6.0, 2.0), p2(3.0, 2.0), p2(3.0, 4.0), p2(0.0, 4.0), p2(0.0, 0.0)]), ("closed rectangle 4x3", vec![p2(0.0, 0.0), p2(4.0, 0.0), p2(4.0, 3.0), p2(0.0, 3.0), p2(0.0, 0.0)])] {
+        let curve = Curve2::from_points(&verts, 1e-8, true).unwrap();
+        let v = curve.points().to_vec();
+        let base = outline_samples(&v, false);
+        for (fx, fy, fa) in [(3.0e5, -2.0e5, 0.3), (-1.0e6, 4.0e5, -0.7), (2.5e5, 2.5e5, 2.5)] {
+            let disp = Iso2::new(Vector2::new(fx, fy), fa);
+            let pts: Vec<Point2> = base.iter().map(|q| disp * q).collect();
+            for (on, off) in [("(0.15,-0.1) + 3 degrees", Iso2::new(Vector2::new(0.15, -0.1), 3.0 * deg)), ("(-0.1,0.2) - 8 degrees", Iso2::new(Vector2::new(-0.1, 0.2), -8.0 * deg))] {
+                let guess = off * disp.inverse();
+                let d = || format!("2D {}, sample set A: on the outline, VERY far displacement ({:?},{:?}) + {:?} rad, starting guess = ({}) * displacement^-1", sn, fx, fy, fa, on);
+                eval2(r, &v, &curve, &pts, &disp, &guess, true, &d);
+            }
+        }
+    }
+}
+
 pub fn run() -> Option<Report> {
-    let mut r = Report::new("3D: box 4x3x2, sample sets A (54 points on the faces) and B (lifted 0.02..0.08 off the faces + 6 edge-closest points + 2 bit-identical repeats), 6 displacements (translations <= 0.05, rotations <= 3 degrees, one of size 3e-5) x 4 starting guesses (identity, small, pitch exactly -90 / +90 degrees plus roll) x {ToPlane, ToPoint}; 2D: closed L outline and 4x3 rectangle, sets A (7 points per edge) and B (offset -0.03..0.03 along the normal + 2 corner-closest points + 2 repeats), 6 displacements x 2 guesses; ROUND 2 (same clauses, same shapes): starting guesses with large rotations - 3D: 11 guesses with roll / pitch / yaw near +-pi and +-pi/2 (roll and yaw +-(pi-0.02) with the answer at +-(pi+0.03) so that the euler parameter crosses +-pi during the solve, roll exactly pi, yaw exactly -pi, pitch pi-0.02, quarter turns, mixed) x 8 small corrections (<= 0.05 units, <= 0.05 rad) x both sample sets x both modes; 2D: part turned by +-90, +-120, +-135, +-170, +-175, 180 degrees x 3 guesses within (0.05, 3 degrees) of the correction; far-away parts - 3D: 4 displacements of 54 .. 540 units (10x .. 100x the part size) x 2 guesses within 0.2 units / 3 degrees x both modes, 2D: 4 displacements of 72 .. 720 units x 2 guesses; exactly representable configurations (dyadic samples, pure dyadic translations, identity / dyadic translation guesses; several end with all residuals exactly 0.0 after one solver step): 3D 5 x 3 x both modes, 2D 6 per shape; large sample sets: 3D 4374 points (27x27 grid per face up to 1/64 from the edges) in both modes, 2D 4200 points on the L outline; ROUND 3: MINIMAL sample sets (as many residuals as parameters) - 3D: 6 points in the 3-2-1 locating scheme on three mutually orthogonal faces of the box (3 arrangements, every point >= 0.5 from the edges of its face) and one 7-point control x 3 displacements (<= 0.05 units, <= 2 degrees) x 2 guesses x both modes; 2D: 3 points 2-1 on two perpendicular edges (2 arrangements per outline) and one 4-point control x 3 displacements x 2 guesses: the set is accepted (Ok), recovered within 1e-6 and the residual clauses hold; recovery tolerance 1e-6, residual tolerance 1e-9 relative");
+    let mut r = Report::new("3D: box 4x3x2, sample sets A (54 points on the faces) and B (lifted 0.02..0.08 off the faces + 6 edge-closest points + 2 bit-identical repeats), 6 displacements (translations <= 0.05, rotations <= 3 degrees, one of size 3e-5) x 4 starting guesses (identity, small, pitch exactly -90 / +90 degrees plus roll) x {ToPlane, ToPoint}; 2D: closed L outline and 4x3 rectangle, sets A (7 points per edge) and B (offset -0.03..0.03 along the normal + 2 corner-closest points + 2 repeats), 6 displacements x 2 guesses; ROUND 2 (same clauses, same shapes): starting guesses with large rotations - 3D: 11 guesses with roll / pitch / yaw near +-pi and +-pi/2 (roll and yaw +-(pi-0.02) with the answer at +-(pi+0.03) so that the euler parameter crosses +-pi during the solve, roll exactly pi, yaw exactly -pi, pitch pi-0.02, quarter turns, mixed) x 8 small corrections (<= 0.05 units, <= 0.05 rad) x both sample sets x both modes; 2D: part turned by +-90, +-120, +-135, +-170, +-175, 180 degrees x 3 guesses within (0.05, 3 degrees) of the correction; far-away parts - 3D: 4 displacements of 54 .. 540 units (10x .. 100x the part size) x 2 guesses within 0.2 units / 3 degrees x both modes, 2D: 4 displacements of 72 .. 720 units x 2 guesses; exactly representable configurations (dyadic samples, pure dyadic translations, identity / dyadic translation guesses; several end with all residuals exactly 0.0 after one solver step): 3D 5 x 3 x both modes, 2D 6 per shape; large sample sets: 3D 4374 points (27x27 grid per face up to 1/64 from the edges) in both modes, 2D 4200 points on the L outline; ROUND 3: MINIMAL sample sets (as many residuals as parameters) - 3D: 6 points in the 3-2-1 locating scheme on three mutually orthogonal faces of the box (3 arrangements, every point >= 0.5 from the edges of its face) and one 7-point control x 3 displacements (<= 0.05 units, <= 2 degrees) x 2 guesses x both modes; 2D: 3 points 2-1 on two perpendicular edges (2 arrangements per outline) and one 4-point control x 3 displacements x 2 guesses: the set is accepted (Ok), recovered within 1e-6 and the residual clauses hold; ROUND 4: OPEN references - L bracket (plates 10x6 and 4x6 sharing a fold; 182 samples incl. points on the free edges; ToPoint) and a corner of three plates (104 samples; both modes) x 4 displacements (slides 0.4 / -0.25 along the fold line = in the plane of both plates, two small general motions), guess identity; VERY far displacements - 3D box: (4e5,-3e5,2e5) and (-1e6,0,5e5) with rotations x 2 guesses within 0.2 units / 6 degrees x both modes, 2D: (3e5,-2e5), (-1e6,4e5), (2.5e5,2.5e5) with rotations x 2 guesses within 0.25 units / 8 degrees on both outlines; recovery tolerance 1e-6, residual tolerance 1e-9 relative");
     run3(&mut r);
     run2(&mut r);
     run3_round2(&mut r);
     run2_round2(&mut r);
     run_minimal(&mut r);
+    run_open_and_far(&mut r);
     Some(r)
 }
